@@ -516,7 +516,7 @@ func implIsModelled(s spec, own []string) bool {
 // ---- generators ------------------------------------------------------------------------------
 
 var (
-	genHosts     = []string{"h.com", "h.com", "api.h.com", "h.com:8080", "10.0.0.1", "my-api.example.io"}
+	genHosts     = []string{"h.com", "h.com", "api.h.com", "h.com:8080", "10.0.0.1", "my-api.example.io", "orders-svc", "localhost:8080"}
 	plainSegs    = []string{"a", "b", "v1", "users", "api", "x_y", "a-b"}
 	dotSegs      = []string{"v1.2", "file.json", "a.b"}
 	metaSegs     = []string{"a+b", "(x)", "q$", "a|b", "x?", "[id]", "^a", "a{1}", "a*", "a\\b", "(a", "a)", "$", "+", "c++", "v1(beta)", "a{1,2}", "f[0]", "x.y+z"}
